@@ -33,13 +33,13 @@ func (c13) CaseTimeout(string) int { return 180 }
 
 func (c13) NumCases(tier string) int {
 	if tier == fw.Thorough {
-		return subrig.NumScript(true)*4 + thoroughHistories
+		return subrig.NumScript(true)*4 + NumReal()*4 + thoroughHistories
 	}
-	return subrig.NumScript(true) + quickHistories
+	return subrig.NumScript(true) + NumReal() + quickHistories
 }
 
 func (c13) Rule() string {
-	return "Cases 0..S-1 enumerate the scripted start-up races of notes/scenarios.md rows 7-9, 11 (start-up goroutine parked at trigger.beforeStart / trigger.afterStart / trigger.startFailed while its creator leaves and, optionally, a new subscriber re-creates the trigger with the same key; Start ok / failing immediately / failing after the context is cancelled; failing start-up hook; the source's Done arriving after the re-subscribe; both settle orders; source with and without the context-end reaction) and rows 1, 3, 5, 6, 10 for the clean-up oracle, each x every position of an injected resolver shutdown (row 12). The remaining cases are the random programs of C12 with the fault alphabet switched on (Start failures, hook failures, Done/Update through older Start instances). Oracle per case: sharing (members of a Start instance have its (input, headers); a subscriber never moves; live subscribers of one key never sit on different instances; one Start per creating subscriber), quiescence (registry (0,0,0), every Start context cancelled, reporter Inc == Dec for both counters, every subscriber completed - first after all clients left and all sources finished, then after shutdown), no completion without a cause, no cross-talk, and the porcupine check of the subscribe / unsubscribe / source-finish history against the nondeterministic reference-count model, partitioned by key. Non-trivial: scripted = the start-up goroutine was parked (or, for rows without a park, >=1 Start instance); history = >=2 subscribers shared a Start instance or >=2 instances of one key. Distinct = distinct program / scenario variant."
+	return "Cases 0..S-1 enumerate the scripted start-up races of notes/scenarios.md rows 7-9, 11 (start-up goroutine parked at trigger.beforeStart / trigger.afterStart / trigger.startFailed while its creator leaves and, optionally, a new subscriber re-creates the trigger with the same key; Start ok / failing immediately / failing after the context is cancelled; failing start-up hook; the source's Done arriving after the re-subscribe; both settle orders; source with and without the context-end reaction) and rows 1, 3, 5, 6, 10 for the clean-up oracle, each x every position of an injected resolver shutdown (row 12). Cases S..S+R-1 run the repository's real graphql_datasource.SubscriptionSource (real trigger hash, input rendered by the real planner and Resolver.subscriptionInput, fake upstream client) with pairs / triples of subscribers whose upstream identity is equal or differs in exactly one component (url, body.query, body.variables, body.extensions, forwarded header, initial_payload present/different, ws_sub_protocol, use_sse, configured header) x 4 shapes x 2 timings: equal identities share exactly one upstream Subscribe, unequal ones never do and never see each other's origin-tagged events. The remaining cases are the random programs of C12 with the fault alphabet switched on (Start failures, hook failures, Done/Update through older Start instances). Oracle per case: sharing (members of a Start instance have its (input, headers); a subscriber never moves; live subscribers of one key never sit on different instances; one Start per creating subscriber), quiescence (registry (0,0,0), every Start context cancelled, reporter Inc == Dec for both counters, every subscriber completed - first after all clients left and all sources finished, then after shutdown), no completion without a cause, no cross-talk, and the porcupine check of the subscribe / unsubscribe / source-finish history against the nondeterministic reference-count model, partitioned by key. Non-trivial: scripted = the start-up goroutine was parked (or, for rows without a park, >=1 Start instance); history = >=2 subscribers shared a Start instance or >=2 instances of one key. Distinct = distinct program / scenario variant."
 }
 
 func (c13) Assumptions() []string {
@@ -55,17 +55,28 @@ func (c13) RequiredCounters(tier string) []string {
 	return []string{"start_instances", "shared_instances", "reporter_sub_inc", "reporter_trigger_inc", "racing_pairs_parked",
 		"hook:trigger.beforeStart", "hook:trigger.afterStart", "hook:trigger.startFailed", "hook:sub.join.beforeStartupHook",
 		"start_failures", "startup_hook_failures", "start_with_cancelled_ctx", "porcupine_ok", "quiescent_histories",
-		"pre_shutdown_registry_checks", "keys_with_several_instances", "cases_history", "cases_script"}
+		"pre_shutdown_registry_checks", "keys_with_several_instances", "cases_history", "cases_script",
+		"cases_real_source", "real_upstream_subscribe_calls", "real_messages_checked", "real_identities_with_one_upstream", "real_upstream_options_checked"}
 }
 
 func (p c13) Run(c *fw.Ctx, idx int) fw.Result {
 	res := fw.Result{}
 	ns := subrig.NumScript(true)
-	caseIdx := idx
-	if c.Tier == fw.Thorough && idx < ns*4 {
+	nr := NumReal()
+	rep := 1
+	if c.Tier == fw.Thorough {
+		rep = 4
+	}
+	// layout: scripted scenarios (x rep) | real-source family (x rep) | random histories
+	var caseIdx int
+	switch {
+	case idx < ns*rep:
 		caseIdx = idx % ns
-	} else if c.Tier == fw.Thorough {
-		caseIdx = ns + (idx - ns*4)
+	case idx < (ns+nr)*rep:
+		runReal(&res, (idx-ns*rep)%nr)
+		return res
+	default:
+		caseIdx = ns + (idx - (ns+nr)*rep)
 	}
 	h, ci := subrig.RunCase(true, caseIdx, func(stream string) *rand.Rand { return c.Rng(idx, stream) })
 	subrig.CountCommon(&res, h, ci)
